@@ -10,3 +10,36 @@ pub use ::simkernel::*;
 pub mod std_shim {
     pub use ::simkernel::thread;
 }
+
+/// Client-side WebSocket handshake over a simulated TCP stream: what
+/// `tokio_tungstenite::connect_async_with_config` does, minus the real socket.
+#[cfg(feature = "websocket")]
+pub async fn ws_connect(
+    url: &str,
+    config: Option<tokio_tungstenite::tungstenite::protocol::WebSocketConfig>,
+) -> Result<
+    (
+        tokio_tungstenite::WebSocketStream<tokio_tungstenite::MaybeTlsStream<tokio_net::TcpStream>>,
+        tokio_tungstenite::tungstenite::handshake::client::Response,
+    ),
+    tokio_tungstenite::tungstenite::Error,
+> {
+    use tokio_tungstenite::tungstenite::client::IntoClientRequest;
+    use tokio_tungstenite::tungstenite::error::UrlError;
+    let request = url.into_client_request()?;
+    let host = request
+        .uri()
+        .host()
+        .ok_or(tokio_tungstenite::tungstenite::Error::Url(UrlError::NoHostName))?
+        .to_string();
+    let port = request.uri().port_u16().unwrap_or(80);
+    let stream = tokio_net::TcpStream::connect((host.as_str(), port))
+        .await
+        .map_err(tokio_tungstenite::tungstenite::Error::Io)?;
+    tokio_tungstenite::client_async_with_config(
+        request,
+        tokio_tungstenite::MaybeTlsStream::Plain(stream),
+        config,
+    )
+    .await
+}
